@@ -434,6 +434,13 @@ structure Machine where
   threads : ThreadId → Thread
   log : List Event
 
+/-- the initial machine on heap `h`: thread `t` runs `progs t` -/
+def Machine.on (h : Heap) (progs : ThreadId → Prog) : Machine :=
+  ⟨h, fun t => Thread.init (progs t), []⟩
+
+/-- process start: nothing constructed -/
+def Machine.start (progs : ThreadId → Prog) : Machine := Machine.on Heap.empty progs
+
 /-- the interleaved run: the schedule is the list of thread ids, one entry per step -/
 def run (v : Variant) (m : Machine) : List ThreadId → Machine
   | [] => m
@@ -461,5 +468,50 @@ def runOps (v : Variant) (h : Heap) : List Op → Heap × List Res
     let (h', x) := exec v op.thread op.app op.acc h
     let (h'', xs) := runOps v h' r
     (h'', x :: xs)
+
+/-- the results of the operations of application `a`, in order, while *all* operations run -/
+def readsOf (v : Variant) (a : AppId) (h : Heap) : List Op → List Res
+  | [] => []
+  | op :: r =>
+    let (h', x) := exec v op.thread op.app op.acc h
+    if op.app = a then x :: readsOf v a h' r else readsOf v a h' r
+
+def Event.op (e : Event) : Op := ⟨e.thread, e.app, e.acc⟩
+
+/-! ## the vocabulary of the property statements -/
+
+def Obj.cls : Obj → Cls
+  | .response => .response
+  | _ => .request
+
+/-- the attribute an access names is one of those `ts_props` made thread-local (generated lists) -/
+def Access.attrOk : Access → Prop
+  | .fget o k _ => k ∈ propsOf o.cls
+  | .fset o k _ => k ∈ propsOf o.cls
+  | .fdel o k => k ∈ propsOf o.cls
+  | _ => True
+
+instance (acc : Access) : Decidable acc.attrOk := by
+  cases acc <;> simp only [Access.attrOk] <;> infer_instance
+
+/-- a program that works on application `a` only and reaches `app.request` / `app.response` state
+through the thread-local attributes only (what serving a request and any handler of `a` does) -/
+inductive Prog.Serves (a : AppId) : Prog → Prop
+  | done : Prog.Serves a .done
+  | step (acc : Access) (k : Res → Prog) : acc.attrOk → (∀ r, Prog.Serves a (k r)) →
+      Prog.Serves a (.step a acc k)
+  | emit (o : String) (k : Prog) : Prog.Serves a k → Prog.Serves a (.emit a o k)
+
+/-- application `a` has been constructed: its request and response objects have their stores -/
+def Ready (a : AppId) (h : Heap) : Prop :=
+  h.hasStore (.req a) = true ∧ h.hasStore (.resp a) = true
+
+/-- no plain slot holds a dict and every dict reference sits in a cell of the thread that created
+the dict (true at process start and kept by every step that uses thread-local attributes only) -/
+structure ThreadOwned (h : Heap) : Prop where
+  regs : ∀ t a r o, h.regs t a r = some (.dict o) → o.thread = t
+  tls : ∀ i u k o, h.tls i u k = some (.dict o) → o.thread = u
+  hd : ∀ a u o, h.hd a u = some (.dict o) → o.thread = u
+  slots : ∀ i k o, h.slots i k ≠ some (.dict o)
 
 end Ombott.TsProps
